@@ -1368,6 +1368,13 @@ class FnTranslator:
                 raise Unsupported('too many initialisers for %s' % it[1])
             parts = []
             for (fn_, ft, finit), x in zip(fields, items):
+                if x.get('kind') == 'CXXDefaultInitExpr' and not [y for y in x.get('inner', []) or [] if y]:
+                    # the field's default member initialiser (clang's JSON does not repeat it here)
+                    if finit is None:
+                        raise Unsupported('CXXDefaultInitExpr for field %s of %s which has no default member initialiser' % (fn_, it[1]))
+                    self.hit('default-member-init')
+                    parts.append('.%s = %s' % (fn_, self.rvalue_for(finit, ft)))
+                    continue
                 parts.append('.%s = %s' % (fn_, self.rvalue_for(x, ft)))
             if len(items) < len(fields):
                 raise Unsupported('partial aggregate initialisation of %s (clang normally fills these in)' % it[1])
